@@ -260,9 +260,12 @@ def _dumps_kvn(data, **kwargs):
 
         data.form = "cartesian"
 
+        # Every date of the segment is written in the time system it announces
+        scale = data.start.scale.name
+
         extras = {
             "START_TIME": "{:{}}".format(data.start, DATE_FMT_DEFAULT),
-            "STOP_TIME": "{:{}}".format(data.stop, DATE_FMT_DEFAULT),
+            "STOP_TIME": "{:{}}".format(data.stop.change_scale(scale), DATE_FMT_DEFAULT),
             "INTERPOLATION": data.method.upper(),
         }
         if data.method != data.LINEAR:
@@ -275,7 +278,7 @@ def _dumps_kvn(data, **kwargs):
         for orb in data:
             text.append(
                 "{date:{dfmt}} {orb[0]:{fmt}} {orb[1]:{fmt}} {orb[2]:{fmt}} {orb[3]:{fmt}} {orb[4]:{fmt}} {orb[5]:{fmt}}".format(
-                    date=orb.date,
+                    date=orb.date.change_scale(scale),
                     orb=orb.base / units.km,
                     fmt=" 10f",
                     dfmt=DATE_FMT_DEFAULT,
@@ -289,7 +292,9 @@ def _dumps_kvn(data, **kwargs):
                     cov_text.append("")
 
                 cov_text.append(
-                    "EPOCH = {date:{dfmt}}".format(date=orb.date, dfmt=DATE_FMT_DEFAULT)
+                    "EPOCH = {date:{dfmt}}".format(
+                        date=orb.date.change_scale(scale), dfmt=DATE_FMT_DEFAULT
+                    )
                 )
 
                 if orb.cov.frame != orb.frame:
@@ -324,9 +329,12 @@ def _dumps_xml(data, **kwargs):
     for i, data in enumerate(data):
         segment = ET.SubElement(body, "segment")
 
+        # Every date of the segment is written in the time system it announces
+        scale = data.start.scale.name
+
         extras = {
             "START_TIME": data.start.strftime(DATE_FMT_DEFAULT),
-            "STOP_TIME": data.stop.strftime(DATE_FMT_DEFAULT),
+            "STOP_TIME": data.stop.change_scale(scale).strftime(DATE_FMT_DEFAULT),
             "INTERPOLATION": data.method.upper(),
         }
         if data.method != data.LINEAR:
@@ -339,7 +347,7 @@ def _dumps_xml(data, **kwargs):
         for el in data:
             statevector = ET.SubElement(data_tag, "stateVector")
             epoch = ET.SubElement(statevector, "EPOCH")
-            epoch.text = el.date.strftime(DATE_FMT_DEFAULT)
+            epoch.text = el.date.change_scale(scale).strftime(DATE_FMT_DEFAULT)
 
             elems = {
                 "X": "x",
@@ -361,7 +369,7 @@ def _dumps_xml(data, **kwargs):
                 cov = ET.SubElement(data_tag, "covarianceMatrix")
 
                 cov_date = ET.SubElement(cov, "EPOCH")
-                cov_date.text = el.date.strftime(DATE_FMT_DEFAULT)
+                cov_date.text = el.date.change_scale(scale).strftime(DATE_FMT_DEFAULT)
 
                 if el.cov.frame != el.frame:
                     frame = el.cov.frame
